@@ -1616,7 +1616,7 @@ func c06Histories(tier string) []c06Scenario {
 		}
 		v := tr
 		v.NoResume = true
-		seqs := append([][]string{}, seed...)
+		seqs := append([][]string{}, c06Sequences(base, 2)...)
 		seqs = append(seqs, []string{"new"}, []string{"rst"}, []string{"new", "drop"}, []string{"fo", "new"})
 		if tr.Src != "new" {
 			for _, c := range cuts {
